@@ -76,6 +76,12 @@ theorem arms_are_source :
     Gen.JpMutArms.modifyValueLists = modifyValueListsModel ∧
     Gen.JpMutArms.removeArms = removeArmsModel := ⟨rfl, rfl, rfl, rfl, rfl, rfl, rfl⟩
 
+/-- regression tripwire for the repair 0367e03 (former known finding C13-nth-remove-shared-list): Nth.remove collects the
+survivors in a NEW list in both list arms (`make`, no `append(tv[:i], …)`), like every other remover — a second reference
+to the list it was given is left alone. Undoing the repair flips the generated fact. (The behaviour itself is checked by
+the alias stream of the run.) -/
+theorem nth_remove_allocates : Gen.JpMutArms.nthRemoveAllocates = true := rfl
+
 /-! ## the model acts on the containers the arms name -/
 
 /-- the arm of fragment kind `frag` lists the container type `cont` -/
